@@ -1,7 +1,7 @@
 (* C03 - a frame or time window read equals the same slice of a full read.
    Only statements, closed by [exact], each followed by Print Assumptions. *)
 From Coq Require Import ZArith NArith List String Bool.
-Require Import ListN Result Bytes Prog Codec PoseRead CodecRT PoseReadLemmas WindowLemmas StreamRead C03_Window CodecGenTie C03_Examples.
+Require Import ListN Result Bytes Prog Codec PoseRead CodecRT PoseReadLemmas WindowLemmas StreamRead C03_Window C03_Consume C03_StreamReject CodecGenTie C03_Examples C03_ExamplesConsume.
 Import ListNotations.
 Open Scope N_scope.
 
@@ -51,6 +51,34 @@ Theorem C03_stream_without_window_args :
 Proof. exact read_stream_noargs. Qed.
 Print Assumptions C03_stream_without_window_args.
 
+(* Consumption clause.  Under the hypotheses of C03_window_stream the stream read pulls from the stream at most
+   the header ([header_len p] = byte length of the header Pose.write emits), the 10 bytes of the body's info
+   fields (fps, frame count, people count), the prefetch ((memo.end_offset or 10240) + 100) and the window
+   itself ([window_bytes p s e] = 4 * people * points * (dims + 1) * (min(end, frames) - start) bytes of the data
+   and confidence blocks).  The bound mentions neither the number of frames outside the window nor the length
+   of the file: bytes prefetched past a skip point are dropped, never re-read beyond the window. *)
+Theorem C03_stream_consumption :
+  forall legacy m p bs a s e,
+    MemoOK m -> write_pose p = Ok bs -> wf_arrays p -> 1 <= nth 3 (w_shape p) 0 ->
+    any_arg a = true ->
+    conflict (a_sf a) (a_st a) = false -> conflict (a_ef a) (a_et a) = false ->
+    resolve_start (fps_word p) (a_sf a) (a_st a) = Ok s -> resolve_end (fps_word p) (a_ef a) (a_et a) = Ok e ->
+    valid_window p s e ->
+    snd (read_stream legacy m bs a) <= header_len p + 10 + prefetch_len m + window_bytes p s e.
+Proof. exact read_stream_pulled_bound. Qed.
+Print Assumptions C03_stream_consumption.
+(* the weaker closed form sketched in DESIGN section 6 (prefetch >= 100 absorbs the 10 info bytes) *)
+Theorem C03_stream_consumption_design_form :
+  forall legacy m p bs a s e,
+    MemoOK m -> write_pose p = Ok bs -> wf_arrays p -> 1 <= nth 3 (w_shape p) 0 ->
+    any_arg a = true ->
+    conflict (a_sf a) (a_st a) = false -> conflict (a_ef a) (a_et a) = false ->
+    resolve_start (fps_word p) (a_sf a) (a_st a) = Ok s -> resolve_end (fps_word p) (a_ef a) (a_et a) = Ok e ->
+    valid_window p s e ->
+    snd (read_stream legacy m bs a) <= header_len p + 2 * prefetch_len m + window_bytes p s e.
+Proof. exact read_stream_pulled_bound_2pf. Qed.
+Print Assumptions C03_stream_consumption_design_form.
+
 (* argument conflicts and a start at or beyond the last frame are rejected *)
 Theorem C03_conflict_rejected :
   forall legacy m p bs a, MemoOK m -> write_pose p = Ok bs ->
@@ -65,6 +93,22 @@ Theorem C03_start_beyond_rejected :
     exists e, fst (read_bytes legacy m bs a) = Err e.
 Proof. exact start_beyond_rejected_bytes. Qed.
 Print Assumptions C03_start_beyond_rejected.
+
+(* the same two rejections from a seekable stream (no [any_arg] hypothesis is needed: a conflict, or a resolved
+   start, implies that some window argument is given) *)
+Theorem C03_conflict_rejected_stream :
+  forall legacy m p bs a, MemoOK m -> write_pose p = Ok bs ->
+    conflict (a_sf a) (a_st a) || conflict (a_ef a) (a_et a) = true ->
+    exists e, fst (fst (read_stream legacy m bs a)) = Err e.
+Proof. exact conflict_rejected_stream. Qed.
+Print Assumptions C03_conflict_rejected_stream.
+Theorem C03_start_beyond_rejected_stream :
+  forall legacy m p bs a s, MemoOK m -> write_pose p = Ok bs -> wf_arrays p ->
+    conflict (a_sf a) (a_st a) = false -> conflict (a_ef a) (a_et a) = false ->
+    resolve_start (fps_word p) (a_sf a) (a_st a) = Ok (Some s) -> (0 < s)%Z -> (frames_of p <= s)%Z ->
+    exists e, fst (fst (read_stream legacy m bs a)) = Err e.
+Proof. exact start_beyond_rejected_stream. Qed.
+Print Assumptions C03_start_beyond_rejected_stream.
 
 (* non-vacuity: a 3-frame file, the window [1,2) given in frames and in milliseconds *)
 Theorem C03_example_file : (exists bs, write_pose ex3 = Ok bs) /\ wf_arrays ex3 /\ 1 <= nth 3 (w_shape ex3) 0.
@@ -88,6 +132,30 @@ Theorem C03_example_beyond :
   resolve_start (fps_word ex3) (Some 3%Z) None = Ok (Some 3%Z) /\ (0 < 3)%Z /\ (frames_of ex3 <= 3)%Z.
 Proof. exact ex3_beyond. Qed.
 Print Assumptions C03_example_beyond.
+
+Theorem C03_example_conflict : conflict (Some 1%Z) (Some 10%Z) || conflict None None = true.
+Proof. exact ex3_conflict. Qed.
+Print Assumptions C03_example_conflict.
+(* non-vacuity of the consumption bound: a 600-frame file of 14452 bytes, window [1,2), empty memo: the bound is
+   10416 bytes - less than the file - and the model pulls 10364 (the 10340-byte prefetch and the 24-byte window) *)
+Theorem C03_example_consumption_file :
+  write_pose ex600 = Ok ex600_file /\ (wf_arrays ex600 /\ 1 <= nth 3 (w_shape ex600) 0).
+Proof. exact (conj ex600_written ex600_wf). Qed.
+Print Assumptions C03_example_consumption_file.
+Theorem C03_example_consumption_window :
+  any_arg ex3_frames = true /\
+  conflict (a_sf ex3_frames) (a_st ex3_frames) = false /\ conflict (a_ef ex3_frames) (a_et ex3_frames) = false /\
+  resolve_start (fps_word ex600) (a_sf ex3_frames) (a_st ex3_frames) = Ok (Some 1%Z) /\
+  resolve_end (fps_word ex600) (a_ef ex3_frames) (a_et ex3_frames) = Ok (Some 2%Z) /\
+  valid_window ex600 (Some 1%Z) (Some 2%Z).
+Proof. exact ex600_window_hyps. Qed.
+Print Assumptions C03_example_consumption_window.
+Theorem C03_example_consumption_bound_below_file :
+  header_len ex600 + 10 + prefetch_len None + window_bytes ex600 (Some 1%Z) (Some 2%Z) = 10416 /\
+  lenN ex600_file = 14452 /\
+  snd (read_stream no_legacy None ex600_file ex3_frames) = 10364.
+Proof. exact ex600_bound_below_file. Qed.
+Print Assumptions C03_example_consumption_bound_below_file.
 
 (* ties to the current source *)
 Theorem C03_tie_body_read_v0_2 : Gen_Codec.body_read_v0_2 = exp_body_read_v0_2.
